@@ -13,6 +13,7 @@ use crate::model::*;
 use crate::stores::*;
 use proptest::prelude::*;
 use serde::{Deserialize, Serialize};
+use sophia_api::dataset::Dataset as _;
 use sophia_isomorphism::{isomorphic_datasets, isomorphic_graphs};
 
 #[derive(Clone, Debug, Serialize, Deserialize)]
@@ -47,7 +48,7 @@ pub struct Case {
 pub struct C07;
 
 pub const DS_CONT: &[&str] = &["Vec<Spog>", "HashSet<Spog>", "FastDataset", "BTreeSet<Gspo>", "LightDataset"];
-pub const GR_CONT: &[&str] = &["Vec<[T;3]>", "HashSet<[T;3]>", "FastGraph", "BTreeSet<[T;3]>", "LightGraph"];
+pub const GR_CONT: &[&str] = &["Vec<[T;3]>", "HashSet<[T;3]>", "FastGraph", "BTreeSet<[T;3]>", "LightGraph", "HashSet<Spog>.graph(g)", "FastDataset.union_graph()", "BTreeSet<Gspo>.partial_union_graph([None,g])"];
 
 macro_rules! with_ds {
     ($idx:expr, $qs:expr, $d:ident, $body:expr) => {
@@ -77,7 +78,7 @@ macro_rules! with_ds {
 }
 macro_rules! with_gr {
     ($idx:expr, $qs:expr, $d:ident, $body:expr) => {
-        match ($idx as usize) % 5 {
+        match ($idx as usize) % 8 {
             0 => {
                 let $d: VecTriples = g_from($qs).expect("collect");
                 $body
@@ -94,12 +95,70 @@ macro_rules! with_gr {
                 let $d: BTreeTriples = g_from($qs).expect("collect");
                 $body
             }
-            _ => {
+            4 => {
                 let $d: LightGraph = g_from($qs).expect("collect");
+                $body
+            }
+            5 => {
+                // a named-graph view on a dataset that also holds statements in other graphs
+                let ds: HashSpog = d_from(&view_quads($qs, 0)).expect("collect");
+                let $d = ds.graph(Some(view_graph_name(0)));
+                $body
+            }
+            6 => {
+                // the union-graph view of a dataset holding each triple in one of two graphs
+                let ds: FastDataset = d_from(&view_quads($qs, 1)).expect("collect");
+                let $d = ds.union_graph();
+                $body
+            }
+            _ => {
+                // a partial union (default graph + one named graph) with extra statements elsewhere
+                let ds: BTreeGspo = d_from(&view_quads($qs, 2)).expect("collect");
+                let gname = view_graph_name(0);
+                let sel = [None, Some(&gname)];
+                let $d = ds.partial_union_graph(sel);
                 $body
             }
         }
     };
+}
+
+fn view_graph_name(i: usize) -> ST {
+    MT::iri(["http://view.example/g0", "http://view.example/g1", "http://view.example/other"][i % 3]).to_simple()
+}
+/// spread the triples of `qs` over the graphs selected by the view kind, and add statements that
+/// the view must not show
+fn view_quads(qs: &[MQ], kind: usize) -> Vec<MQ> {
+    let g = |i: usize| Some(MT::from_term(view_graph_name(i)));
+    let mut out: Vec<MQ> = vec![];
+    for (i, q) in qs.iter().enumerate() {
+        let mut q = q.clone();
+        q.g = match kind {
+            0 => g(0),
+            1 => {
+                if i % 2 == 0 {
+                    None
+                } else {
+                    g(1)
+                }
+            }
+            _ => {
+                if i % 2 == 0 {
+                    None
+                } else {
+                    g(0)
+                }
+            }
+        };
+        out.push(q);
+    }
+    if kind != 1 {
+        // not selected by the view
+        for k in 0..3 {
+            out.push(MQ::new(MT::iri(format!("http://view.example/extra{k}")), MT::iri("http://view.example/p"), MT::bn(format!("extra{k}")), g(2)));
+        }
+    }
+    out
 }
 
 /// the real answer; Err = panic or stream error
@@ -324,7 +383,7 @@ impl Check for C07 {
     type Case = Case;
     const ID: &'static str = "C07";
     fn rule() -> String {
-        "generalized datasets/graphs (<=20 statements; IRIs, literals, variables, blank nodes in every position incl. predicate and graph name, quoted triples to depth 2 containing blank nodes; random quads over small pools and/or a blank-node shape with nested mentions) compared with (1) a bijectively relabelled, shuffled copy in another container (5 dataset / 5 graph container types) and (2) a relabelled mutant (ground term changed, statement added/removed, blank nodes merged/split). Non-trivial = >=2 blank nodes, or a blank node inside a quoted triple or as graph name; distinct by hash of the case."
+        "generalized datasets/graphs (<=20 statements; IRIs, literals, variables, blank nodes in every position incl. predicate and graph name, quoted triples to depth 2 containing blank nodes; random quads over small pools and/or a blank-node shape with nested mentions) compared with (1) a bijectively relabelled, shuffled copy in another container (5 dataset container types; 8 graph container types incl. named-graph, union and partial-union views on datasets holding other statements) and (2) a relabelled mutant (ground term changed, statement added/removed, blank nodes merged/split). Non-trivial = >=2 blank nodes, or a blank node inside a quoted triple or as graph name; distinct by hash of the case."
             .into()
     }
     fn assumptions() -> Vec<String> {
@@ -357,7 +416,7 @@ impl Check for C07 {
             3 => (0..32usize, 0..32usize).prop_map(|(a, b)| Neg::SwapBnodes(a, b)),
             1 => Just(Neg::Copy),
         ];
-        (quads, prop::bool::weighted(0.3), any::<u64>(), prop::collection::vec(0..64usize, 0..24), 0..5u8, 0..5u8, neg, any::<u64>())
+        (quads, prop::bool::weighted(0.3), any::<u64>(), prop::collection::vec(0..64usize, 0..24), 0..8u8, 0..8u8, neg, any::<u64>())
             .prop_map(|(quads, as_graph, salt, swaps, cont_a, cont_b, neg, neg_salt)| Case { quads, as_graph, salt, swaps, cont_a, cont_b, neg, neg_salt })
             .boxed()
     }
@@ -367,7 +426,7 @@ impl Check for C07 {
         serde_json::json!({
             "A": a.iter().map(MQ::show).collect::<Vec<_>>(),
             "api": if case.as_graph { "isomorphic_graphs" } else { "isomorphic_datasets" },
-            "containers": [case.cont_a % 5, case.cont_b % 5],
+            "containers": [case.cont_a % 8, case.cont_b % 8],
             "mutant": kind,
             "B": prep(&b, case.as_graph).iter().map(MQ::show).collect::<Vec<_>>(),
         })
@@ -376,7 +435,7 @@ impl Check for C07 {
         let a = prep(&case.quads, case.as_graph);
         let names = if case.as_graph { GR_CONT } else { DS_CONT };
         ctx.class(if case.as_graph { "api:isomorphic_graphs" } else { "api:isomorphic_datasets" });
-        ctx.class(format!("containers:{}+{}", names[case.cont_a as usize % 5], names[case.cont_b as usize % 5]));
+        ctx.class(format!("containers:{}+{}", names[case.cont_a as usize % names.len()], names[case.cont_b as usize % names.len()]));
         let nb = all_bnodes(&a).len();
         let nested = a.iter().any(|q| q.terms().iter().any(|t| t.is_triple() && t.has_bnode()));
         let bgraph = a.iter().any(|q| q.g.as_ref().map(|g| g.has_bnode()).unwrap_or(false));
@@ -411,7 +470,7 @@ impl Check for C07 {
                 Ok(false) => {
                     ctx.fail(
                         format!("iso/false-negative/{trig}"),
-                        format!("{dir}: a bijectively relabelled, shuffled copy is reported NOT isomorphic\n A ({}):\n{}\n copy ({}):\n{}", names[case.cont_a as usize % 5], show_quads(&a), names[case.cont_b as usize % 5], show_quads(&a2)),
+                        format!("{dir}: a bijectively relabelled, shuffled copy is reported NOT isomorphic\n A ({}):\n{}\n copy ({}):\n{}", names[case.cont_a as usize % names.len()], show_quads(&a), names[case.cont_b as usize % names.len()], show_quads(&a2)),
                     );
                     return;
                 }
